@@ -686,6 +686,12 @@ func (vc *VC) evalWriteTarget(env *SpecEnv, e ast.Expr, text string, add func(h,
 				vc.addObjectTargets(env, x, e, add)
 				return
 			}
+			if id, ok := ce.Fun.(*ast.Ident); ok && id.Name == "token" {
+				ch := env.eval(ce.Args[0])
+				vc.heapGet(env.st, "G$tokheld", "(Array Int Int)", nil)
+				add("G$tokheld", ch.S)
+				return
+			}
 			if id, ok := ce.Fun.(*ast.Ident); ok && id.Name == "lock" {
 				hn, ref := env.lockTarget(ce.Args[0])
 				add(hn, ref)
